@@ -36,6 +36,11 @@ CLAIMED = {
          "Every MC_E1 AST evaluated with secrets (high-entropy strings/numbers/map keys) only inside marked values, marks at top level and nested; no summary, detail or text-writer rendering may contain a canary.",
          "Expressions only so far; error kinds reached are those of the depth-2 generator.",
          "DESIGN.md §4 C19"),
+ "C20": ("spec/MC_C20.tla + spec/HclExpr.tla",
+         "TLC enumerates traversal step sequences (with the specification's fold as value), type-constraint types, and MC_E1 ASTs; static views (AbsTraversalForExpr, ParseTraversalAbs, ExprList/Map/Call, TypeString/TypeConstraint) of the real code compared with evaluation and with each other",
+         "Every root x step sequence up to 3 (quick) / 4 (thorough) steps in 3 layouts and as JSON template; every type to depth 2/3 (attribute names incl. `for`, `null`); every MC_E1 AST for list/map/call views. Relations are computed on real outputs; TLC additionally supplies the specified value for each traversal.",
+         "Reverse direction (expression-parser traversal accepted stand-alone) only on the stand-alone grammar's domain (no legacy index, no bool/null keys); optional() object attributes not generated.",
+         "DESIGN.md §4 C20"),
 }
 NOT_YET = "check not built yet in this round (planned per DESIGN.md §4); nothing is claimed for it"
 
@@ -72,7 +77,7 @@ def main():
         },
         "engines": [
             {"name": "HclWriteTree", "path": "spec/HclWriteTree.tla", "serves_properties": ["C12"], "kind_free_text": "TLA+ edit-history machine of the hclwrite tree; TLC state dump streamed to a Go replayer"},
-            {"name": "E1 HclValues+HclExpr+MC_E1", "path": "spec/HclExpr.tla", "serves_properties": ["C01", "C05", "C06", "C07", "C19"], "kind_free_text": "TLA+ denotational semantics of the expression/template language with a production-per-action AST generator; TLC dump streamed to Go replayers (harness/e1, c01, c05, c06, c07, c19)"},
+            {"name": "E1 HclValues+HclExpr+MC_E1", "path": "spec/HclExpr.tla", "serves_properties": ["C01", "C05", "C06", "C07", "C19", "C20"], "kind_free_text": "TLA+ denotational semantics of the expression/template language with a production-per-action AST generator; TLC dump streamed to Go replayers (harness/e1, c01, c05, c06, c07, c19)"},
         ],
         "checks": checks,
         "not_applicable": na,
